@@ -6,7 +6,7 @@
    boolean recogniser wf_string of Model.v (C09_wf_string_grammar, C09_wf_string_iff_roundtrip). *)
 From Coq Require Import String Ascii List Bool NArith.
 Import ListNotations.
-Require Import V.Lib.PyStr V.Ref.Model V.Ref.Proofs V.Ref.Accept.
+Require Import V.Lib.PyStr V.Ref.Model V.Ref.Proofs V.Ref.Accept V.Ref.Listing.
 Open Scope string_scope.
 
 (* parse (print parts) = parts, whatever the application dependencies and extra folders *)
@@ -149,6 +149,55 @@ Theorem C09_same_target_loop : forall k name file meth i idx' ad sf,
 Proof. exact same_target_loop. Qed.
 Print Assumptions C09_same_target_loop.
 
+(* ---------------------------------------------------------------- folders taken from a directory listing *)
+(* Manifest.fromDirectory: every listed directory, and every symbolic link that resolves to a directory, is a
+   top-level folder of the package / instance (whatever include_files says, for a path that is itself a directory) *)
+Theorem C09_listing_folders_complete : forall root incf l n k,
+  kind_isdir root = true -> In (n, k) l -> kind_isdir k = true -> hasc "/" n = false ->
+  in_strs n (dir_folders root true incf l) = true.
+Proof. exact listing_folders_complete. Qed.
+Print Assumptions C09_listing_folders_complete.
+
+(* and nothing else is: a top-level folder is a listed entry that passes the link-following type test *)
+Theorem C09_listing_folders_sound : forall root incd incf l f,
+  (forall e, In e l -> hasc "/" (fst e) = false) ->
+  In f (dir_folders root incd incf l) ->
+  kind_isdir root = true /\ exists k, In (f, k) l /\ keeps incd incf k = true.
+Proof. exact listing_folders_sound. Qed.
+Print Assumptions C09_listing_folders_sound.
+
+(* a reference into a listed directory or into a link to a directory is never a component reference, for both classifiers *)
+Theorem C09_classify_direct_listing : forall r a meth idx ad root incf l k,
+  split_colon r = Some (a, meth) ->
+  stage_prefixed (first_seg_of "/" a) = false ->
+  kind_isdir root = true -> In (first_seg_of "/" a, k) l -> kind_isdir k = true ->
+  exists prod file, parse_full r idx ad (dir_folders root true incf l) = Some (None, prod, file, meth).
+Proof. exact classify_direct_listing. Qed.
+Print Assumptions C09_classify_direct_listing.
+
+Theorem C09_classify_direct_expand_listing : forall r a meth ctx known ad root incf l k,
+  split_colon r = Some (a, meth) -> known_noslash known ->
+  stage_prefixed (first_seg_of "/" a) = false ->
+  kind_isdir root = true -> In (first_seg_of "/" a, k) l -> kind_isdir k = true ->
+  known_in known ctx (first_seg_of "/" a) = false ->
+  expand_one r ctx known ad (dir_folders root true incf l) = Some r.
+Proof. exact classify_direct_expand_listing. Qed.
+Print Assumptions C09_classify_direct_expand_listing.
+
+(* a well-formed reference whose producer is a listed file / fifo / dangling link, or is not listed, is a component reference *)
+Theorem C09_classify_component_listing : forall st prod file meth ctx known ad root l,
+  wf_component (st, prod, file, meth) = true ->
+  is_var_reference prod = false ->
+  (forall e, In e l -> hasc "/" (fst e) = false) ->
+  (st = None -> (forall k, In (prod, k) l -> kind_isdir k = false) /\
+                in_strs prod Special = false /\ in_strs prod (map app_dep_name ad) = false) ->
+  let mi := match st with Some n => n | None => ctx end in
+  let tlf := dir_folders root true false l in
+  expand_one (print_pref (st, prod, file, meth)) ctx known ad tlf = Some (print_pref (Some mi, prod, file, meth)) /\
+  parse_full (print_pref (st, prod, file, meth)) (Some ctx) ad tlf = Some (Some mi, prod, file, meth).
+Proof. exact classify_component_listing. Qed.
+Print Assumptions C09_classify_component_listing.
+
 (* non-vacuity: a stage-prefixed reference with dots, dashes, loop prefix and a nested glob path is in the
    grammar and round-trips; the nested manifest key foo/bar makes foo/bar/f.txt:ref a folder reference while
    gen_2/out.d/f.txt:ref of stage 3 becomes stage3.gen_2/out.d/f.txt:ref *)
@@ -172,5 +221,15 @@ Example C09_nonvacuous :
   print_pref (Some 1%N, "A", Some "x", "ref") = "stage1.A/x:ref" /\
   in_strs (dec 3 ++ "#" ++ "loop") (folders_of ["Appx"] ["foo"]) = false /\ var_search (dec 3 ++ "#" ++ "loop") = false /\
   parse_full "3#loop/out:ref" (Some 2%N) ["Appx"] ["foo"] = Some (Some 2%N, "3#loop", Some "out", "ref") /\
-  parse_full "stage2.3#loop/out:ref" None ["Appx"] ["foo"] = Some (Some 2%N, "3#loop", Some "out", "ref").
+  parse_full "stage2.3#loop/out:ref" None ["Appx"] ["foo"] = Some (Some 2%N, "3#loop", Some "out", "ref") /\
+  (* a package directory: lib is a directory, models a link to a directory, gen_2 a regular file, old a dangling
+     link, README.md a link to a file: only lib and models are folders; gen_2 stays a component of stage 3 *)
+  dir_folders KDir true false [("README.md", KLinkFile); ("gen_2", KFile); ("lib", KDir); ("models", KLinkDir); ("old", KDangling)]
+    = ["lib"; "models"] /\
+  dir_folders KLinkDir true true [("README.md", KLinkFile); ("gen_2", KFile); ("lib", KDir); ("pipe", KOther)]
+    = ["README.md"; "gen_2"; "lib"] /\
+  dir_folders KFile true true [("lib", KDir)] = [] /\
+  expand_refs ["models/weights.bin:ref"; "lib/tool.sh:copy"; "gen_2/out.d/f.txt:ref"; "old/x:ref"] 3 (Some [(3%N, ["gen_2"])]) []
+              (dir_folders KDir true false [("README.md", KLinkFile); ("gen_2", KFile); ("lib", KDir); ("models", KLinkDir); ("old", KDangling)])
+    = Some ["models/weights.bin:ref"; "lib/tool.sh:copy"; "stage3.gen_2/out.d/f.txt:ref"; "stage3.old/x:ref"].
 Proof. repeat split; vm_compute; reflexivity. Qed.
